@@ -74,7 +74,12 @@ def apply_possible_filter(git_path, path=None):
         return path
 
     # Apply filter and pipe to a string buffer
-    with io.open(path, 'r', encoding="utf8") as f:
+    try:
+        f = io.open(path, 'r', encoding="utf8")
+    except IOError:
+        # Nothing to filter (e.g. the file was deleted in the working tree)
+        return path
+    with f:
         output = check_output(
             filter_cmd,
             stdin=f,
